@@ -144,15 +144,22 @@ def session(rng, kind, ncalls, seed):
     return {"cfg": {}, "ev": ev, "mode": "session", "kind": kind, "seed": seed, "ncalls": ncalls}
 
 
-def freq_trace(rng, frame, reps, seed):
+def freq_trace(rng, frame, reps, seed, dirichlet=False):
     """many resampling calls with a fully specified distribution over classes that are all present in the window:
     the aggregate class frequencies of the output windows must follow the requested probabilities"""
     from menelaus import injection as I
+    import random
+    rng = random.Random(seed)         # the trace is a function of (frame, reps, seed, dirichlet): replays are exact
     n, ncols = 40, 3
     probs = rng.choice([{0.0: 0.7, 1.0: 0.2, 2.0: 0.1}, {0.0: 0.1, 1.0: 0.1, 2.0: 0.8}, {0.0: 1 / 3, 1.0: 1 / 3, 2.0: 1 / 3}])
     counts = {k: 0 for k in probs}
     total = 0
     ev = []
+    # Dirichlet injector: concentration so large that the drawn probabilities equal alpha_k / sum(alpha) to 1e-3; the keys of the
+    # alpha dictionary come in an arbitrary (shuffled) insertion order
+    order = list(probs)
+    rng.shuffle(order)
+    alpha = {k: probs[k] * 1e6 for k in order}
     for r in range(reps):
         data, names = make_data(rng, n, ncols, frame)
         a = np.asarray(data)
@@ -161,7 +168,10 @@ def freq_trace(rng, frame, reps, seed):
             continue
         before = mat(data)
         np.random.seed((seed + r) % (2 ** 32))
-        out = I.LabelProbabilityInjector()(data, f, t, names[-1] if frame else ncols - 1, dict(probs))
+        if dirichlet:
+            out = I.LabelDirichletInjector()(data, f, t, names[-1] if frame else ncols - 1, dict(alpha))
+        else:
+            out = I.LabelProbabilityInjector()(data, f, t, names[-1] if frame else ncols - 1, dict(probs))
         o = np.asarray(out)
         for k in probs:
             counts[k] += int((o[f:t, -1] == k).sum())
@@ -174,7 +184,7 @@ def freq_trace(rng, frame, reps, seed):
     e = {k: v for k, v in (ev[0] if ev else base_event("freq", np.zeros((1, 1)), np.zeros((1, 1)), mat(np.zeros((1, 1))))).items()}
     e.update(op="freq", n=num(total), counts=[num(counts[k]) for k in ks], probs=[num(probs[k]) for k in ks])
     ev.append(e)
-    return {"cfg": {}, "ev": ev, "mode": "freq", "frame": frame, "reps": reps, "seed": seed}
+    return {"cfg": {}, "ev": ev, "mode": "freq", "frame": frame, "reps": reps, "seed": seed, "dirichlet": dirichlet}
 
 
 def sabotage(trace, rng):
